@@ -28,7 +28,7 @@ class Job:
     def __init__(self, name, tu, entry, enforce=(), replace=(), loops=True,
                  unwind=None, unwindset=(), checks=None, extra=(), defines=(),
                  klass='proved', bound=None, solver='sat', timeout=600, mem_gb=12,
-                 functions=(), replay=None, canary=True, allow_flat_ptr=False,
+                 functions=(), replay=None, canary=True, allow_flat_ptr=False, waive=(),
                  note='', includes=(), object_bits=None, nondet_static=False,
                  enforce_rec=(), expect_loop_contracts=None, malloc_may_fail=False,
                  drop_checks=(), split=24):
@@ -54,6 +54,8 @@ class Job:
         self.replay = replay          # callable(job, failed, workdir) -> dict | None
         self.canary = canary
         self.allow_flat_ptr = allow_flat_ptr
+        self.waive_reason = ''
+        self.waive = [re.compile(w) for w in waive]   # tool-limit obligations of this job that are NOT counted (each job states why)
         self.note = note
         self.includes = list(includes)
         self.object_bits = object_bits
@@ -71,6 +73,7 @@ class JobResult:
         self.obligations = []         # dicts: name, desc, status, cls, func
         self.failed = []
         self.flat_ptr = 0
+        self.waived = 0
         self.canary_fired = False
         self.secs = {}
         self.cmds = []
@@ -303,6 +306,12 @@ def run_job(job, workroot, keep=False):
                     ob['status'] = 'FLATPTR'
                     r.obligations.append(ob)
                     continue
+        if st != 'SUCCESS' and any(w.search(name + ' ' + desc) for w in job.waive):
+            r.waived += 1
+            ob['status_raw'] = st
+            ob['status'] = 'WAIVED'
+            r.obligations.append(ob)
+            continue
         r.obligations.append(ob)
         if st != 'SUCCESS':
             r.failed.append(ob)
@@ -426,7 +435,7 @@ def _summarise(prop, results, tier, meta, seed, t0, workroot, write_baseline):
                   backend=j.solver, enforce=j.enforce + j.enforce_rec, replaced=j.replace,
                   obligations=len(r.obligations),
                   discharged=len([o for o in r.obligations if o['status'] == 'SUCCESS']),
-                  seconds={k: round(v, 2) for k, v in r.secs.items()}, note=j.note)
+                  seconds={k: round(v, 2) for k, v in r.secs.items()}, note=j.note + ((' | %d instrumentation obligations waived: %s' % (r.waived, j.waive_reason)) if r.waived else ''))
         per_job.append(pj)
         for fn in j.functions:
             funcs.append(dict(file=fn[0], function=fn[1], job=j.name, klass=j.klass,
@@ -435,7 +444,7 @@ def _summarise(prop, results, tier, meta, seed, t0, workroot, write_baseline):
             undecided.append((r, r.reason))
             continue
         for o in r.obligations:
-            if o['status'] == 'FLATPTR':
+            if o['status'] in ('FLATPTR', 'WAIVED'):
                 continue
             if j.klass == 'proved':
                 n_obl += 1
@@ -565,8 +574,13 @@ def _summarise(prop, results, tier, meta, seed, t0, workroot, write_baseline):
                     f.write(k + '\n')
             print('baseline written: %d keys' % len(old | new_baseline))
     if violations:
-        for v in violations:
+        # contract-level obligations first; the instrumentation/memory obligations that fail in their wake are summarised
+        rank = lambda v: 0 if re.search(r'postcondition|loop_|precondition', v) else 1 if 'assertion' in v else 2
+        violations.sort(key=rank)
+        for v in violations[:6]:
             print(v)
+        if len(violations) > 6:
+            print('(%d further failing obligations of the same run have replay files under %s/replays/)' % (len(violations) - 6, VERIF))
         return 1
     if undecided:
         for r, why in undecided:
